@@ -66,7 +66,9 @@ def schema_bij(ctx: Ctx, chk) -> None:
                 probs.append(f"is not a parameter of {c.name}.__init__: loading a saved file fails")
             if name in params and name in want:
                 src = stored.get(name)
-                ok_src = src in (name, f"int({name})", f"{name} or {{}}")
+                from .common import param_or_empty_forms
+
+                ok_src = src in (name, f"int({name})") or src in param_or_empty_forms(name)
                 if not ok_src:
                     probs.append(f"is stored as `{src}` by {c.name}.__init__ (not the given value)")
             if name in fields and name in want:
@@ -123,7 +125,8 @@ def schema_bij(ctx: Ctx, chk) -> None:
     records_name = None
     ok = False
     if len(st) == 1 and len(loops) == 1:
-        ok = norm(loops[0].iter) == "self.nodes.values()" and isinstance(loops[0].target, ast.Name) and norm(st[0].targets[0].slice) == f"{loops[0].target.id}.node_id" and isinstance(st[0].value, ast.Call) and norm(st[0].value.func).endswith(".dump") and norm(st[0].value.args[0]) == loops[0].target.id
+        v0 = cs.tree(st[0].value)  # a local holding the dumped record is written out
+        ok = norm(loops[0].iter) == "self.nodes.values()" and isinstance(loops[0].target, ast.Name) and norm(st[0].targets[0].slice) == f"{loops[0].target.id}.node_id" and isinstance(v0, ast.Call) and norm(v0.func).endswith(".dump") and len(v0.args) == 1 and norm(v0.args[0]) == loops[0].target.id
         records_name = norm(st[0].targets[0].value)
         where = st[0]
     elif len(comps) == 1 and not st:
@@ -330,7 +333,7 @@ def value_within(ctx: Ctx, f: FuncInfo, node: ast.AST, val: ast.expr, lo, hi):
                 rlo, rhi = sh[0], sh[1] - 1
                 if (lo is None or rlo >= lo) and (hi is None or rhi <= hi):
                     return True, f"an element of range({sh[0]}, {sh[1]})"
-            low = lower_bound(la[0])
+            low = lower_bound(cn.tree(la[0]))
             from .c11 import interval_truth
 
             for t in g.nodes:
